@@ -24,6 +24,12 @@ pub fn run(ctx: &mut Ctx, prop: &str) {
     if prop == "C14" || prop == "C17" || prop == "C03" {
         stream_zero_eval_points(ctx, prop);
     }
+    if prop == "C14" || prop == "C17" || prop == "C08" {
+        stream_oversize_polynomial(ctx, prop);
+    }
+    if prop == "C06" || prop == "C03" || prop == "C10" {
+        ipa_stray_shifted_commitment(ctx, prop);
+    }
     if prop == "C14" || prop == "C03" || prop == "C02" {
         stream_repeated_point(ctx, prop);
     }
@@ -432,5 +438,112 @@ fn stream_zero_eval_points(ctx: &mut Ctx, prop: &str) {
                     id, ctx.seed, deg + 2, if i % 2 == 0 { "stream" } else { "time" }, 1 + i, prop, ctx.seed, id));
         }
         ctx.rep.case(&format!("attack stream zero-eval-points key (from {} key): {:?}", if i % 2 == 0 { "stream" } else { "time" }, r.as_ref().map_err(|e| e.chars().take(40).collect::<String>())), Some(format!("attack-stream-zero-eval/{}", i % 2)));
+    }
+}
+
+/// Streaming KZG, a polynomial with more coefficients than the key has powers: no prover may answer (D24: the
+/// time-efficient committer's MSM dropped the surplus coefficients — the commitment of the truncation).
+fn stream_oversize_polynomial(ctx: &mut Ctx, prop: &str) {
+    use ark_bls12_381::Bls12_381;
+    use ark_poly_commit::streaming_kzg::{CommitterKey, CommitterKeyStream};
+    type E = Bls12_381;
+    for i in 0..ctx.n(4, 16) {
+        let id = format!("{}/attack-stream-oversize-polynomial/{}", prop, i);
+        if !ctx.selected(&id) {
+            continue;
+        }
+        let mut rng = rng_for(ctx.seed, "attack-stream-oversize-polynomial", i as u64);
+        let d = 1 + i % 7;
+        let surplus = 1 + i % 4;
+        let ck = match guarded(|| CommitterKey::<E>::new(d, 2, &mut rng)) {
+            Ok(k) => k,
+            Err(_) => continue,
+        };
+        let f: Vec<Fr> = (0..d + 1 + surplus).map(|_| rand_nonzero(&mut rng)).collect();
+        let alpha = Fr::rand(&mut rng);
+        let pts = vec![Fr::rand(&mut rng), Fr::rand(&mut rng)];
+        let mut answered: Vec<&str> = vec![];
+        if guarded(|| ck.commit(&f)).is_ok() {
+            answered.push("time commit");
+        }
+        if guarded(|| ck.batch_commit(&[f.clone()])).is_ok() {
+            answered.push("time batch_commit");
+        }
+        if guarded(|| ck.open(&f, &alpha)).is_ok() {
+            answered.push("time open");
+        }
+        if guarded(|| ck.open_multi_points(&f, &pts)).is_ok() {
+            answered.push("time open_multi_points");
+        }
+        let sk = CommitterKeyStream::from(&ck);
+        let fs = ark_std::iterable::Reverse(f.as_slice());
+        if guarded(|| sk.commit(&fs)).is_ok() {
+            answered.push("space commit");
+        }
+        if guarded(|| sk.open(&fs, &alpha, 4)).is_ok() {
+            answered.push("space open");
+        }
+        if !answered.is_empty() {
+            ctx.rep.expect_fail(&id, "streaming_kzg/out-of-domain-answered/polynomial-longer-than-the-key",
+                &format!("a polynomial of {} coefficients under a key of {} powers was answered by: {}", f.len(), d + 1, answered.join(", ")),
+                format!("# scheme: streaming_kzg\n# case: {}\n# seed: {}\n# CommitterKey::new({}, 2); polynomial of {} coefficients\n# rerun: .build/cargo/debug/pcv-harness {} --seed {} --only {}\n", id, ctx.seed, d, f.len(), prop, ctx.seed, id));
+        }
+        ctx.rep.case(&format!("attack stream oversize polynomial key {} len {} answered {:?}", d + 1, f.len(), answered), Some(format!("attack-stream-oversize/{}", surplus)));
+    }
+}
+
+/// IPA `check_combinations`, a commitment WITHOUT degree bound that carries a stray `shifted_comm` (a field the
+/// prover controls): the combining loop pushed a second element for it while one element per unbounded
+/// combination is read back, so the NEXT combination was paired with the stray element — with
+/// `shifted_comm = commit(q)` and the library's proof for `(p1, q)`, the false value `q(z)` verified for the
+/// honestly committed `p2` (D26).  Must not be accepted.
+fn ipa_stray_shifted_commitment(ctx: &mut Ctx, prop: &str) {
+    use ark_poly_commit::ipa_pc::Commitment;
+    use ark_poly_commit::{Evaluations, LabeledCommitment, LinearCombination, QuerySet};
+    for i in 0..ctx.n(3, 12) {
+        let id = format!("{}/attack-ipa-stray-shifted/{}", prop, i);
+        if !ctx.selected(&id) {
+            continue;
+        }
+        let mut rng = rng_for(ctx.seed, "attack-ipa-stray-shifted", i as u64);
+        let d = [3usize, 7, 15][i % 3];
+        let r = guarded(|| -> Result<(bool, bool), String> {
+            let pp = IpaPC::setup(d, None, &mut rng).map_err(|e| format!("{:?}", e))?;
+            let (ck, vk) = IpaPC::trim(&pp, d, 0, None).map_err(|e| format!("{:?}", e))?;
+            let rp = |rng: &mut Rng| <UniPoly as DenseUVPolynomial<Fr>>::rand(d, rng);
+            let p1 = LabeledPolynomial::new("p1".to_string(), rp(&mut rng), None, None);
+            let p2 = LabeledPolynomial::new("p2".to_string(), rp(&mut rng), None, None);
+            let q = LabeledPolynomial::new("p2".to_string(), rp(&mut rng), None, None);
+            let (comms, _) = IpaPC::commit(&ck, [&p1, &p2], None).map_err(|e| format!("{:?}", e))?;
+            let adv_polys = vec![p1.clone(), q.clone()];
+            let (adv_comms, adv_states) = IpaPC::commit(&ck, &adv_polys, None).map_err(|e| format!("{:?}", e))?;
+            let z = Fr::rand(&mut rng);
+            let lcs = vec![
+                LinearCombination::new("lc1", vec![(Fr::one(), "p1")]),
+                LinearCombination::new("lc2", vec![(Fr::one(), "p2")]),
+            ];
+            let mut qs = QuerySet::new();
+            qs.insert(("lc1".to_string(), ("z".to_string(), z)));
+            qs.insert(("lc2".to_string(), ("z".to_string(), z)));
+            let mut sp = generic::fresh_sponge();
+            let proof = IpaPC::open_combinations(&ck, &lcs, &adv_polys, &adv_comms, &qs, &mut sp, &adv_states, None)
+                .map_err(|e| format!("{:?}", e))?;
+            let c1_bad = LabeledCommitment::new("p1".to_string(),
+                Commitment { comm: comms[0].commitment().comm, shifted_comm: Some(adv_comms[1].commitment().comm) }, None);
+            let vcomms = vec![c1_bad, comms[1].clone()];
+            let mut evals = Evaluations::new();
+            evals.insert(("lc1".to_string(), z), p1.evaluate(&z));
+            evals.insert(("lc2".to_string(), z), q.evaluate(&z));
+            let falsev = q.evaluate(&z) != p2.evaluate(&z);
+            let mut sp = generic::fresh_sponge();
+            let acc = IpaPC::check_combinations(&vk, &lcs, &vcomms, &qs, &evals, &proof, &mut sp, &mut rng).unwrap_or(false);
+            Ok((falsev, acc))
+        });
+        if let Ok(Ok((true, true))) = r {
+            ctx.rep.expect_fail(&id, "ipa/false-claim-accepted/stray-shifted-commitment",
+                "check_combinations accepted a false value for an honestly committed polynomial: another commitment of the list (no degree bound) carried a stray shifted_comm",
+                format!("# scheme: ipa\n# case: {}\n# seed: {}\n# lc1 = p1, lc2 = p2 at one point; p1's commitment presented as Commitment {{ comm, shifted_comm: Some(commit(q)) }} with bound None; proof = open_combinations on (p1, q); claimed lc2(z) = q(z)\n# rerun: .build/cargo/debug/pcv-harness {} --seed {} --only {}\n", id, ctx.seed, prop, ctx.seed, id));
+        }
+        ctx.rep.case(&format!("attack ipa stray shifted_comm d={} -> {:?}", d, r.as_ref().map_err(|e| e.chars().take(40).collect::<String>())), Some(format!("attack-ipa-stray-shifted/{}", d)));
     }
 }
